@@ -40,6 +40,7 @@ type verifC04RpcOp struct {
 type verifC04RpcCase struct {
 	Auth   bool            `json:"auth"`
 	Strict bool            `json:"strict"`
+	Proxy  bool            `json:"proxy"` // calls go through one rpc.Proxy (TakeConn with the caller's credentials)
 	Ops    []verifC04RpcOp `json:"ops"`
 }
 
@@ -102,6 +103,7 @@ func TestVerifDriverC04(t *testing.T) {
 				gs.Stop()
 			}
 		}()
+		proxy := NewProxy(addr, WithDialOption(grpc.WithTransportCredentials(insecure.NewCredentials())))
 		dep := mock.NewDepositServiceClient(conn)
 		hc := grpc_health_v1.NewHealthClient(conn)
 		type row struct {
@@ -139,7 +141,27 @@ func TestVerifDriverC04(t *testing.T) {
 					ctx = metadata.NewOutgoingContext(ctx, md)
 				}
 				var err error
-				if op.Mode == "stream" {
+				if c.Proxy {
+					// the front server hands the caller's incoming metadata to the proxy, which dials / reuses a
+					// backend connection carrying those credentials
+					in := context.Background()
+					if !op.NoMd {
+						md := metadata.MD{}
+						if op.Apps != nil {
+							md["app"] = op.Apps
+						}
+						if op.Tokens != nil {
+							md["token"] = op.Tokens
+						}
+						in = metadata.NewIncomingContext(in, md)
+					}
+					var pc *grpc.ClientConn
+					if pc, err = proxy.TakeConn(in); err == nil {
+						cctx, ccancel := context.WithTimeout(context.Background(), 5*time.Second)
+						_, err = mock.NewDepositServiceClient(pc).Deposit(cctx, &mock.DepositRequest{Amount: 0})
+						ccancel()
+					}
+				} else if op.Mode == "stream" {
 					var st grpc_health_v1.Health_WatchClient
 					if st, err = hc.Watch(ctx, &grpc_health_v1.HealthCheckRequest{}); err == nil {
 						if _, err = st.Recv(); err == io.EOF {
